@@ -863,14 +863,22 @@ impl FrontendInternal {
         }
         self.check_state()?;
 
-        let mut buf: Vec<u8> = vec![0; hdr.get_size() as usize - mem::size_of::<T>()];
-        let (reply, body, bytes, files) = self.main_sock.recv_payload_into_buf::<T>(&mut buf)?;
-        if !reply.is_reply_for(hdr)
-            || reply.get_size() as usize != mem::size_of::<T>() + bytes
-            || files.is_some()
-            || !body.is_valid()
-            || bytes != buf.len()
-        {
+        // The size of the reply is given by its own header, not by the request: a backend reports
+        // failure with a reply that carries no payload, so never wait for the requested size.
+        let (reply, files) = self.main_sock.recv_header()?;
+        let size = reply.get_size() as usize;
+        if !reply.is_reply_for(hdr) || files.is_some() || size < mem::size_of::<T>() {
+            return Err(VhostUserError::InvalidMessage);
+        }
+        let (bytes, rbuf) = self.main_sock.recv_data(size)?;
+        if bytes != size {
+            return Err(VhostUserError::PartialMessage);
+        }
+        let mut body = T::default();
+        body.as_mut_slice()
+            .copy_from_slice(&rbuf[..mem::size_of::<T>()]);
+        let buf = rbuf[mem::size_of::<T>()..].to_vec();
+        if !body.is_valid() || buf.len() != hdr.get_size() as usize - mem::size_of::<T>() {
             return Err(VhostUserError::InvalidMessage);
         }
 
